@@ -229,7 +229,9 @@ class Check:
                 with open(tp, 'w') as f:
                     json.dump(trace, f, separators=(',', ':'))
                 e['TRACE_FILE'] = tp
-        cmd = ['java', '-XX:+UseParallelGC', '-Xmx12g', '-Xss64m', '-cp', JAR, 'tlc2.TLC', '-config', cfgpath,
+        w_ = workers or NCPU
+        gc = ['-XX:+UseSerialGC', '-Xmx3g'] if w_ == 1 else ['-XX:+UseParallelGC', '-XX:ParallelGCThreads=%d' % min(8, w_), '-Xmx12g']
+        cmd = ['java'] + gc + ['-Xss64m', '-cp', JAR, 'tlc2.TLC', '-config', cfgpath,
                '-metadir', os.path.join(meta, 'states'), '-noGenerateSpecTE',
                '-workers', str(workers or NCPU)]
         if not deadlock:
@@ -276,18 +278,18 @@ class Check:
         if n == 0:
             raise MachineryError('empty batch for ' + label)
         k = shards or max(1, min(NCPU, (n + per_shard - 1) // per_shard))
-        bounds = [(i * n) // k for i in range(k + 1)]
-        parts = [(bounds[i], traces[bounds[i]:bounds[i + 1]]) for i in range(k) if bounds[i + 1] > bounds[i]]
+        # round-robin assignment balances expensive neighbours; idx maps a shard-local trace number back to the batch
+        parts = [(list(range(i, n, k)), [traces[j] for j in range(i, n, k)]) for i in range(k) if i < n]
         kw.setdefault('workers', 1)
 
         def one(part):
-            off, tr = part
-            return off, self.tlc(module, cfg, trace=tr, label='%s[%d:%d]' % (label, off, off + len(tr)), **kw)
+            idx, tr = part
+            return idx, self.tlc(module, cfg, trace=tr, label='%s[%d::%d]' % (label, idx[0], k), **kw)
         with ThreadPoolExecutor(max_workers=len(parts)) as ex:
             res = list(ex.map(one, parts))
         merged = TlcResult('', 0, max(r.wall for _, r in res))
         merged.label = label
-        for off, r in res:
+        for idx, r in res:
             merged.out += r.out
             merged.rc = max(merged.rc, r.rc) if r.rc >= 0 else r.rc
             merged.generated += r.generated
@@ -298,9 +300,9 @@ class Check:
             merged.errors += r.errors
             merged.infos += r.infos
             for f in r.fails:
-                merged.fails.append((f[0], f[1] + off) + tuple(f[2:]))
+                merged.fails.append((f[0], idx[f[1] - 1] + 1) + tuple(f[2:]))
             for f in r.drifts:
-                merged.drifts.append((f[0], f[1] + off) + tuple(f[2:]))
+                merged.drifts.append((f[0], idx[f[1] - 1] + 1) + tuple(f[2:]))
         return merged
 
     def require_clean(self, r, allow_violation=True):
